@@ -98,10 +98,17 @@ impl<'a> UserTraitGenerator<'a> {
         for (i, member_id) in symbol_table.members(action_id)?.iter().rev().enumerate() {
             let arg_inst = symbol_table.symbol_as_instance(*member_id);
             let arg_type = symbol_table.symbol_as_type(arg_inst.type_id());
+            // A clipped non-terminal that carries a user type (e.g. through %nt_type) keeps the
+            // user defined type as its type. Its AST item lies on the stack all the same.
             if matches!(
                 *arg_type.entrails(),
                 TypeEntrails::Clipped(MetaSymbolKind::NonTerminal(_))
-            ) {
+            ) || (arg_inst.sem() == SymbolAttribute::Clipped
+                && matches!(
+                    *arg_type.entrails(),
+                    TypeEntrails::UserDefinedType(MetaSymbolKind::NonTerminal(_), _)
+                ))
+            {
                 // let arg_name = symbol_table.name(arg_inst.my_id());
                 // code.push(format!("// Ignore clipped member '{}'", arg_name));
                 code.push("self.pop(context);".to_string());
